@@ -1,6 +1,7 @@
 import StepModel.ExpDecl
 import StepModel.ExpParseLemmas
 import StepModel.ExpDeclSynLemmas
+import StepModel.ExpEntitySynLemmas
 /-!
 # C07 — pretty-printed EXPRESS is valid, equivalent to its source and stable
 
@@ -407,6 +408,37 @@ theorem C07_locals_printed_iff (ls : List Local) (hn : ∀ l ∈ ls, l.name.leng
     · exact (localsWidth_zero_iff ls hn).mp h0
     · simp [h0] at h
   · intro h; subst h; simp [localsWidth]
+
+/-! ### declarations: ENTITY -/
+
+/-- supertype chains joined by one operator are associative: `AND` and `ANDOR` are printed through `EXPRop2__out( …, previous_op )`
+(regenerated dispatch), which is why `a AND (b AND c)` comes out as `a AND b AND c` -/
+theorem C07_supertype_ops_omit : supOmit false = true ∧ supOmit true = true := by decide
+
+/-- **Supertype expressions: print/parse round trip.**  For every supertype expression the grammar can build (entity references,
+ONEOF lists, AND / ANDOR, any nesting) the reader of `supertype_expression` returns, from the tokens exppp prints, the expression
+with chains of one operator regrouped to the left (`supNorm`) — and printing that gives the same tokens (`C07_supertype_stable`).
+`r`: whatever follows (not AND / ANDOR); fuel: any sufficiently large number. -/
+theorem C07_supertype_roundtrip (s : SupEx) (h : wfSup s) (r : List DTok) (hr : NoOp r) :
+    ∃ n0, ∀ n, n0 ≤ n → parseSupExpr n (supToks s false none ++ r) = some (supNorm s, r) := by
+  have := sup_roundtrip_normal (supNorm s) ((supNorm_all s).2.1 h) r hr
+  rw [(supNorm_all s).1.1] at this
+  exact this
+
+theorem C07_supertype_stable (s : SupEx) (p : Bool) (q : Option Bool) : supToks (supNorm s) p q = supToks s p q :=
+  (supNorm_all s).1.1 p q
+
+/-- **ENTITY declarations: print/parse round trip at token level, independent of the line length.**  Header (ABSTRACT, SUPERTYPE
+OF with its expression, SUBTYPE OF), explicit attributes (OPTIONAL, redeclared names `SELF\e.a`, every type of
+`C07_type_roundtrip`), DERIVE, INVERSE (SET/BAG with bounds, FOR), UNIQUE (labels, reference lists), WHERE (labels): the reader
+following `entity_decl` of expparse.y returns, from the tokens `ENTITY_out` prints, the same declaration (supertype expression
+regrouped as in `C07_supertype_roundtrip`), whatever follows.  Embedded expressions are single tokens here (`C07_parse_print`,
+`C07_lex_layout_partial` for their own round trip). -/
+theorem C07_entity_roundtrip (e : EntityDecl) (h : wfEntityP e) (r : List DTok) :
+    ∃ n0, ∀ n, n0 ≤ n → parseEntity n (entityToks e ++ r) = some (e.norm, r) := by
+  have := entity_rt e.norm (wfEntity_norm e h) r
+  rw [entityToks_norm] at this
+  exact this
 
 /-! ## layout layer -/
 
